@@ -121,6 +121,42 @@ class _LazyGen(Abstract):
         return next(self._it)
 
 
+class _StdFn(Abstract):
+    """a function of the standard library as a value (handed to map / partial / reduce, or kept in a table): calling it is
+    the call written out by name, which the evaluator knows how to answer"""
+
+    def __init__(self, dotted_name: str):
+        self.dotted_name = dotted_name
+        self.__dict__["__name__"] = dotted_name.split(".")[-1]
+
+    def __call__(self, *args: Any, **kwargs: Any) -> Any:
+        from .absint import _Const
+
+        f = _CURRENT[-1]
+        func: Any = None
+        for part in self.dotted_name.split("."):
+            func = ast.Name(id=part, ctx=ast.Load()) if func is None else ast.Attribute(value=func, attr=part, ctx=ast.Load())
+        call = ast.Call(func=func, args=[_Const(a) for a in args], keywords=[ast.keyword(arg=k, value=_Const(v)) for k, v in kwargs.items()])
+        sub = Folder({}, f.repo, f.mod, f.cls, f.hook)  # (no local of the caller can shadow the library's name here)
+        sub.depth = f.depth
+        return sub.fold(ast.fix_missing_locations(call))
+
+
+class _ModuleValue(Abstract):
+    """a module of the package as a value: `getattr(_serializable, name)`"""
+
+    def __init__(self, module: Any):
+        self.module = module
+        self.__dict__["__name__"] = module.name
+
+
+class _StaticValue(Abstract):
+    """`staticmethod(f)` kept in a class body: reached through the class or an instance it is f itself, never bound"""
+
+    def __init__(self, f: Any):
+        self.f = f
+
+
 class _OpGetter(Abstract):
     """operator.attrgetter(name...) / itemgetter(key...) / methodcaller(name, *args, **kwargs) as a callable value"""
 
@@ -147,8 +183,12 @@ class _OpGetter(Abstract):
 
             vals = [item(k) for k in self.args]
             return vals[0] if len(vals) == 1 else tuple(vals)
-        m = attr(obj, self.args[0])
-        return call_value(f, m, list(self.args[1:]), dict(self.kwargs))
+        from .absint import _Const
+
+        call = ast.Call(func=ast.Attribute(value=ast.Name(id="__o", ctx=ast.Load()), attr=self.args[0], ctx=ast.Load()), args=[_Const(a) for a in self.args[1:]], keywords=[ast.keyword(arg=k, value=_Const(v)) for k, v in self.kwargs.items()])
+        sub = Folder({"__o": obj}, f.repo, f.mod, f.cls, f.hook)
+        sub.depth = f.depth
+        return sub.fold(ast.fix_missing_locations(call))
 
 
 class _Eager(list):
@@ -228,6 +268,8 @@ def call_value(folder: "Folder", f: Any, args: list, kwargs: Optional[dict] = No
         from .absint import Raised
 
         raise Raised("TypeError", ast.Constant(value=None))
+    if isinstance(f, _StaticValue):
+        return call_value(folder, f.f, args, kwargs)
     if (f is str or f is repr) and len(args) == 1 and not kwargs and type(args[0]).__name__ == "AObj":
         # `map(str, xs)`, `key=repr`: the text of an instance is what its class's own method says
         t_ = _abs_text(folder, args[0], "__str__" if f is str else "__repr__")
@@ -883,6 +925,8 @@ class Folder:
             return v_mod
         if isinstance(r, ClassInfo):
             return r  # a class of the model, as a value (e.g. chosen by a conditional expression)
+        if isinstance(r, Module):
+            return _ModuleValue(r)  # a module of the package as a value (getattr(module, name))
         if isinstance(r, FuncInfo) and (r.cls is None or r.is_static or r.is_classmethod or isinstance(e, ast.Name) or (isinstance(e, ast.Attribute) and not (isinstance(e.value, ast.Name) and e.value.id in ("self",)))):
             # a function of the repository as a first-class value (passed to reduce / map / sorted(key=) / stored in a table)
             from .absint import FnRef
@@ -905,6 +949,8 @@ class Folder:
                 f_ = getattr(_op, r.dotted.split(".")[1], None)
                 if callable(f_):
                     return f_  # a function of the operator module as a value (functools.reduce(operator.ior, ...))
+            if r.dotted.split(".")[0] in ("itertools", "functools", "math") and r.dotted.count(".") >= 1 and r.dotted not in ("math.pi", "math.e", "math.inf", "math.nan"):
+                return _StdFn(r.dotted)
             if r.dotted == "builtins.type":
                 return _TypeFn()
             if r.dotted.startswith("builtins.") and r.dotted.split(".")[1] in _BUILTIN_TYPES:
@@ -1030,12 +1076,22 @@ class Folder:
                     from .absint import FnRef
 
                     return FnRef(self.repo, m_, self.hook)(*[self.fold(a) for a in args], **{k.arg: self.fold(k.value) for k in e.keywords if k.arg})
+                if m_ is None and self.repo.lookup_class_attr(k_, e.func.attr) is not None:
+                    # `K.NAME(...)` where NAME is a class attribute holding a callable (staticmethod(f), a partial, a table entry)
+                    cv_ = Folder({"__k": k_}, self.repo, self.mod, self.cls, self.hook).fold(ast.Attribute(value=ast.Name(id="__k", ctx=ast.Load()), attr=e.func.attr, ctx=ast.Load()))
+                    return call_value(self, cv_, fold_starred(self, args), {k.arg: self.fold(k.value) for k in e.keywords if k.arg})
             if type(recv).__name__ == "AObj":
                 from .absint import aobj_member
 
                 bm = aobj_member(self, recv, e.func.attr)
                 if type(bm).__name__ == "_BoundMethod":
                     return bm.call(self, [self.fold(a) for a in args], {k.arg: self.fold(k.value) for k in e.keywords if k.arg})
+                vals_c = fold_starred(self, args)
+                kw_c = {k.arg: self.fold(k.value) for k in e.keywords if k.arg}
+                if isinstance(bm, (_StaticValue, _Partial)) or (type(bm).__name__ == "AObj" and bm._ctx_.repo.lookup_method(bm._cls_, "__call__") is not None) or (isinstance(bm, Abstract) and callable(bm) and type(bm).__name__ not in ("FnRef",)):
+                    return call_value(self, bm, vals_c, kw_c)  # a class attribute that is not a function: called as it is
+                if isinstance(bm, (_Lambda, _LocalFn)) or type(bm).__name__ == "FnRef":
+                    return call_value(self, bm, [recv] + vals_c, kw_c)  # a function object in the class body binds the instance
                 raise Unfoldable(unparse(e))
             if recv is not NotImplemented and (not e.keywords or (isinstance(recv, (str, bytes, bytearray)) and e.func.attr in ("encode", "decode") and all(k.arg in ("encoding", "errors") for k in e.keywords))):
                 m = e.func.attr
@@ -1088,7 +1144,7 @@ class Folder:
                 repo_callee = None
             if not isinstance(repo_callee, (FuncInfo, ClassInfo)):
                 repo_callee = None
-        if e.keywords and repo_callee is None and not isinstance(e.func, (ast.Call, ast.Subscript, ast.IfExp)) and name not in ("int", "dict", "enumerate", "itertools.product", "itertools.groupby", "groupby", "sorted", "max", "min", "functools.partial", "partial", "int.from_bytes") and not (isinstance(e.func, ast.Name) and isinstance(self.env.get(e.func.id), (Abstract, ClassInfo, _TypeOf))) and not (isinstance(e.func, ast.Attribute) and dotted(e.func) and dotted(e.func).split(".")[0] in self.env):
+        if e.keywords and repo_callee is None and not isinstance(e.func, (ast.Call, ast.Subscript, ast.IfExp)) and name not in ("int", "dict", "enumerate", "itertools.product", "itertools.groupby", "groupby", "sorted", "max", "min", "functools.partial", "partial", "int.from_bytes", "itertools.accumulate", "accumulate") and not (isinstance(e.func, ast.Name) and isinstance(self.env.get(e.func.id), (Abstract, ClassInfo, _TypeOf))) and not (isinstance(e.func, ast.Attribute) and dotted(e.func) and dotted(e.func).split(".")[0] in self.env):
             raise Unfoldable(unparse(e))
         if isinstance(e.func, ast.Attribute) and e.func.attr == "to_bytes" and 1 <= len(args) <= 2:
             v = self.fold(e.func.value)
@@ -1172,6 +1228,16 @@ class Folder:
             a = self.fold(args[1])
             if isinstance(v, _TypeOf):
                 v = v.cls
+            if isinstance(v, _ModuleValue) and isinstance(a, str) and self.repo is not None:
+                # getattr(module, "name"): what `module.name` names
+                try:
+                    return Folder({}, self.repo, v.module, None, self.hook).fold(ast.Name(id=a, ctx=ast.Load()))
+                except Unfoldable:
+                    if len(args) == 3:
+                        return self.fold(args[2])
+                    from .absint import Raised
+
+                    raise Raised("AttributeError", e)
             if isinstance(v, ClassInfo) and isinstance(a, str) and self.repo is not None:
                 # getattr(K, "name"): a function / class attribute of the class, as `K.name` would give it
                 try:
@@ -1322,6 +1388,8 @@ class Folder:
             from .absint import Raised
 
             raise Raised("TypeError", e)
+        if name == "staticmethod" and len(args) == 1 and name not in self.env:
+            return _StaticValue(self.fold(args[0]))
         if name in ("hex", "oct", "bin") and len(args) == 1 and name not in self.env:
             v = self.fold(args[0])
             if isinstance(v, int) and not isinstance(v, Abstract):
@@ -1375,6 +1443,29 @@ class Folder:
             f = self.fold(args[0])
             vals = list(self.fold(args[1]))
             return [v_ for v_ in vals if not (bool(v_) if f is None else call_value(self, f, [v_]))]
+        if name == "map" and len(args) >= 3 and "map" not in self.env:
+            f = self.fold(args[0])
+            cols = [self.fold(a) for a in args[1:]]
+            finite = [list(c) for c in cols if not isinstance(c, _Repeat)]
+            n_ = min((len(c) for c in finite), default=0)
+            rows = list(zip(*[([c.value] * n_ if isinstance(c, _Repeat) else list(c)[:n_]) for c in cols]))
+            return [call_value(self, f, list(row)) for row in rows]
+        if name in ("itertools.accumulate", "accumulate") and 1 <= len(args) <= 2 and name.split(".")[0] not in self.env:
+            xs = list(self.fold(args[0]))
+            kw = {k.arg: self.fold(k.value) for k in e.keywords if k.arg}
+            fn_ = self.fold(args[1]) if len(args) == 2 else kw.get("func")
+            acc_out: list = []
+            have = "initial" in kw and kw["initial"] is not None
+            acc = kw.get("initial")
+            if have:
+                acc_out.append(acc)
+            for x_ in xs:
+                if not have:
+                    acc, have = x_, True
+                else:
+                    acc = (acc + x_) if fn_ is None else call_value(self, fn_, [acc, x_])
+                acc_out.append(acc)
+            return _Eager(acc_out)
         if name in ("map", "filter") and len(args) == 2:
             f = self.fold(args[0])
             vals = list(self.fold(args[1]))
